@@ -200,6 +200,11 @@ func tryPartial(env Env, nodes []ast.IsNode,
 			return nil, err
 		}
 		nodes[i] = n
+		if v, vok := n.(ast.NodeValue); vok && containsVariable(v.Value) {
+			// usable as an operand below, but a value with an unknown nested inside must
+			// not be frozen into a residual: keep the original operand
+			nodes[i] = orig[i]
+		}
 		if !ok {
 			continue
 		}
@@ -485,12 +490,16 @@ func partialIfThenElse(env Env, v ast.NodeTypeIfThenElse) (ast.IsNode, error) {
 		return nil, thenErr
 	} else if thenErr != nil && !errors.Is(thenErr, errVariable) {
 		thenNode = extError(thenErr)
+	} else if tv, ok := thenNode.(ast.NodeValue); ok && containsVariable(tv.Value) {
+		thenNode = v.Then
 	}
 	elseNode, elseErr := partial(env, v.Else)
 	if errors.Is(elseErr, errIgnore) {
 		return nil, elseErr
 	} else if elseErr != nil && !errors.Is(elseErr, errVariable) {
 		elseNode = extError(elseErr)
+	} else if ev, ok := elseNode.(ast.NodeValue); ok && containsVariable(ev.Value) {
+		elseNode = v.Else
 	}
 	return ast.NodeTypeIfThenElse{If: ifNode, Then: thenNode, Else: elseNode}, nil
 }
